@@ -148,6 +148,16 @@ CLAIMED = {
              "WILD_VERIF_POINT error injection) and comparing the state of the output path (inode, bytes, mtime) with the model. One defect repaired (fix: remove the output file when the link fails).",
         technique="Coq proof (case analysis over the link's control flow on an abstract file system) + model/implementation correspondence by fault injection over the configuration matrix",
         design_ref="DESIGN.md §3 C18"),
+    "C19": dict(
+        text="S2 on the shared abstract file system (Cfs/Model.v): for every configuration, failure point (error return or kill) and prior directory in which the parking name chosen by "
+             "unused_sibling_path is unused, every name other than the output's is bound after the link exactly as before (nothing is left under the parking name) and every inode that existed "
+             "before, other than the one the output name was bound to, keeps its contents. Refutations: a parking name that exists is destroyed (the repaired defect, formerly <stem>.delete); "
+             "a hard link to the old output sees the in-place update (recorded).",
+        note="Trusted: as C18; side files (--write-layout, --write-trace, --dependency-file) are declared outputs whose contents are not modelled. The tie is by directory snapshots (inode, size, "
+             "sha256, mode of every entry) before/after real runs over output names x write modes x threads x failure points x side-file flags with eight look-alike siblings, plus concurrent "
+             "pairs of links sharing a stem. One defect repaired (fix: unused parking name instead of <stem>.delete).",
+        technique="Coq proof (an invariant relating the file system to its initial state, preserved by every operation of the link) + directory-snapshot correspondence on real runs",
+        design_ref="DESIGN.md §3 C19"),
     "C37": dict(
         text="S1 on top of C03: DT_NEEDED = the shared libraries in the verified loaded set, in command-line order. Theorems: listed iff loaded shared library; every --no-as-needed library listed; "
              "an --as-needed library listed only if some loaded file non-weakly references a name whose first definition it is; strictly increasing command-line positions (each at most once).",
